@@ -31,5 +31,12 @@ REGISTRY = {
                     "eq=>hash and order-freedom on it for all terms up to depth 2 paired with their related terms (permutation, duplicated element, replaced element, other constructor, boundary twin); "
                     "the 27.7k pairs are replayed on the real classes in-process and C19_Trace evaluates the laws on the logged results of to_dict/from_dict/==/hash (exceptions are failed laws).",
             "ref": "DESIGN.md section 7 C19", "note": "Trusted: TLC; the builder from spec terms to real objects (harness/checks/c19.py). Bounded by the explored depth/alphabet.", "technique": TECH},
+    "C03": {"text": "spec/Package.tla defines publicity, exposure by the five re-export forms, allowed homes and the move-not-copy placement machine (Analyse -> Place); TLC checks "
+                    "exactly-once/home invariants for universe U1 (declaration kind x name class x module privacy x 4 placements x every re-export form at every non-private ancestor) and emits the scenarios; "
+                    "they are packed 40 per package, run through the CLI, and Topo_Trace judges occurrences, owner nesting, home and name of every entity; failures are re-run in isolation before being reported.",
+            "ref": "DESIGN.md section 7 C03", "note": BASE_NOTE, "technique": TECH},
+    "C04": {"text": "Same specification and runs as C03 (spec/Package.tla): Topo_Trace judges that no non-public entity occurs in any stub file (NoLeak) and that the is_public flags "
+                    "of the API JSON equal the spec's Public(entity) for classes, functions, methods, attributes, inner classes and enums.",
+            "ref": "DESIGN.md section 7 C04", "note": BASE_NOTE, "technique": TECH},
 }
 NOT_APPLICABLE = {}
